@@ -177,7 +177,7 @@ def classify(octets):
     return {"class": "well-framed", "apci": ap, "invoke": ap["invoke"]}
 
 
-def run_batch(run, frames, label, wit_extra=None, followups=(), big_device=False, settle=70.0):
+def run_batch(run, frames, label, wit_extra=None, followups=(), big_device=False, settle=70.0, nothing_executed=False):
     """frames: list of octet strings (sent by station INJ) or (station, octets) pairs, handed to the device in one deferred
     batch; followups: [(delay, station, octets)] injected afterwards"""
     CLOCK.reset()
@@ -310,6 +310,10 @@ def run_batch(run, frames, label, wit_extra=None, followups=(), big_device=False
     if heap_transaction_timers():
         run.violation("transaction-timer-left-on-device", dict(wit))
         ok = False
+    if nothing_executed and (dev.av.presentValue != 72.5 or dev.bv.presentValue != "inactive"):
+        # the batch held nothing that is a complete request: nothing may have been carried out
+        run.violation("incomplete-request-executed", dict(wit, analog_value=dev.av.presentValue, binary_value=str(dev.bv.presentValue)))
+        ok = False
     # a subsequent valid request is answered correctly
     if not dcc_acked:
         probe = confirmed(200, 12, [ctx(0, objid(2, 1)), ctx(1, b"\x55")])
@@ -385,6 +389,15 @@ def main():
         one = f[:2] + bytes([apdu[0] | 0x08]) + apdu[1:3] + bytes([0, rng.choice([1, 2, 16])]) + apdu[3:]
         run.case(("single-segment", label), sample={"single_segment_request": label, "octets": one}, sample_key=("single", label == "ReadProperty"))
         run_batch(run, [one, confirmed(152, 12, [ctx(0, objid(2, 1)), ctx(1, b"\x55")])], "single-segment/" + label)
+    # 2a'. a last segment without the segments before it (a late duplicate of the end of an earlier request, say): the writes
+    #      it would amount to if it were taken for a whole request must not happen
+    for label, f in valid[3:5]:
+        for seq in (1, 3, 255):
+            apdu = f[2:]
+            orphan = f[:2] + bytes([apdu[0] | 0x08]) + apdu[1:3] + bytes([seq, rng.choice([1, 2, 16])]) + apdu[3:]
+            run.case(("orphan-segment", label, seq), sample={"orphan_last_segment": label, "sequence_number": seq}, sample_key=("orphan", seq == 1))
+            run_batch(run, [orphan], "orphan-last-segment/" + label, nothing_executed=True)
+            run.count("orphan_segments_checked")
     # 2b. garbage from a second station that claims to forward for a remote network, then a valid routed request through
     #     the genuine router: the answer has to go back through the station that forwarded the request
     for i in range((16000 if thorough else 60) // (run.shard[1] if thorough else 1)):
